@@ -1,5 +1,6 @@
 import Hive.Proofs.WorkerPoolLog
 import Hive.Proofs.WorkerPoolGroup
+import Hive.Proofs.WorkerPoolGroupSd
 import Hive.Proofs.WorkerPoolTerm
 import Hive.Gen.C16_Skel
 import Hive.Model.WorkerPoolSched
@@ -294,6 +295,54 @@ theorem C16_group_example :
       .inc 3, .inc 3, .inc 4, .inc 1, .dec 3, .dec 1, .dec 3]
     t.map (·.value) = [1, 0, 1, 0, 1] ∧ below 5 t 0 4 = true ∧ waitChildrenReturns t 0 = false ∧
       waitChildrenReturns (run t [.dec 4]) 0 = true := by
+  decide
+
+/-- **C16, group-level waits during and after `Group.Shutdown`.**  The state is the counter tree plus the flags
+`Group.isShutdown` / "pool stopped by its group"; the operations are those of `C16_group_wait` plus the separate
+steps of `Group.shutdown` (`flag g` = `isShutdown.Swap(true)`, `stop q` = `pool.Shutdown()` in the loop of its flagged
+group) and whole `Group.Shutdown()` calls, in ANY interleaving — in particular a task accepted by a pool that is
+still running although its group's flag is set already (`Group.shutdown` sets the flag first and stops the pools one
+by one afterwards).  In every state so reached every group's counter is the number of its children with a non-zero
+counter, and `WaitChildren` can return only when no pool (and no group) below has pending work: the flags have no
+influence on the counters — a subscription that stops reporting once its group is flagged breaks exactly this. -/
+theorem C16_group_shutdown_wait (ops : List SOp) :
+    let s := runS {} ops
+    (∀ g, isGroup s.tree g = true → val s.tree g = cntKids s.tree g) ∧
+    (∀ g q fuel, waitChildrenReturns s.tree g = true → below fuel s.tree g q = true → val s.tree q = 0) := by
+  intro s
+  have h : Inv s.tree := inv_runS {} ops inv_nil
+  refine ⟨fun g hg => h.eq g hg, ?_⟩
+  intro g q fuel hw hb
+  exact below_zero fuel s.tree h g q hb (by simpa [waitChildrenReturns] using hw)
+
+/-- `Group.isShutdown` and "stopped" are never reset, whatever happens afterwards; a stopped pool rejects every
+`Submit` (its counter is not moved by `inc`), so from then on it only drains. -/
+theorem C16_group_flags_monotone (s : GS) (ops : List SOp) (j : Nat) (h : isShut s j = true) :
+    isShut (runS s ops) j = true ∧ stepS (runS s ops) (.base (.inc j)) = runS s ops :=
+  ⟨isShut_runS s ops j h, stepS_inc_stopped _ j (isShut_runS s ops j h)⟩
+
+example : ∃ s : GS, isShut s 1 = true := ⟨{ tree := [], shut := [false, true] }, by decide⟩
+
+/-- The shutdown window (the `group sdwin` scenario of the harness): root 0, sub-group 1 with pools 2, 3, 4.  After the
+flags of 0 and 1 are set and before pool 4 is stopped, a task accepted by pool 4 counts in 1 and in 0 — `WaitChildren`
+of the root blocks —; after the stops `inc 4` is rejected; a second `Group.Shutdown` is a no-op. -/
+theorem C16_group_shutdown_window_example :
+    let s := runS {} [.base (.newGroup none), .base (.newGroup (some 0)), .base (.newPool 1), .base (.newPool 1),
+      .base (.newPool 1), .flag 0, .flag 1, .base (.inc 4)]
+    s.tree.map (·.value) = [1, 1, 0, 0, 1] ∧ waitChildrenReturns s.tree 0 = false ∧ chainVals 6 s.tree 4 = [1, 1, 1] ∧
+      (let s' := runS s [.stop 2, .stop 3, .stop 4, .base (.inc 4), .base (.dec 4)]
+       s'.tree.map (·.value) = [0, 0, 0, 0, 0] ∧ s'.shut = [true, true, true, true, true] ∧
+         runS s' [.shutdown 0] = s') := by
+  decide
+
+/-- A whole `Group.Shutdown` flags every group below and stops every pool below — except below a group whose flag was
+set before: `Group.shutdown` returns there at once.  A pool created in a group after that group's shutdown (pool 3)
+therefore keeps running through a later shutdown of the parent; that is what the code does (the harness stops such
+pools itself). -/
+theorem C16_group_shutdown_orphan_example :
+    let s := runS {} [.base (.newGroup none), .base (.newGroup (some 0)), .base (.newPool 1), .shutdown 1,
+      .base (.newPool 1), .base (.newPool 0), .shutdown 0, .base (.inc 3), .base (.inc 2)]
+    s.shut = [true, true, true, false, true] ∧ s.tree.map (·.value) = [1, 1, 0, 1, 0] := by
   decide
 
 end Hive.WPG
